@@ -279,7 +279,7 @@ func runC04(t *testing.T, s C04Scenario) (res Result) {
 						fail("%s: reopening failed: %v", tag, err)
 						return
 					}
-				} else if err := e.st.Start(ctx); err != nil {
+				} else if err := startScoped(e.st.Start); err != nil {
 					fail("%s: Start after Stop failed: %v", tag, err)
 					return
 				}
